@@ -11,7 +11,8 @@ Driver for the Cypher reference semantics `Cy`.  One request per line, s-express
   const <graph> <clauses-query> <expr> -> ok <n-true> <n-false> <n-null> <n-err>
         (how a predicate evaluates over the rows the clauses produce; `q`'s projection is ignored)
 
-  de     := 0 (openCypher variable-length paths) | 1 (engine: distinct end nodes)
+  de     := 0 (the specification) | 1 (engine's variable-length BFS) | 2 (engine's ORDER BY
+            tie-break) | 3 (both) — 1..3 only classify a violation found under 0
   graph  := (g ((n (label…) ((key v)…))…) ((r src tgt type ((key v)…))…))   ids = positions
   v      := N | T | F | I<int> | D<num>_<k> | S<hex> | (L v…) | n<id> | r<id>
   expr   := (lit v) | (var x) | (prop e k) | (not e) | (and a b) | (or a b) | (xor a b)
@@ -271,10 +272,15 @@ def showVerdict : Verdict → String
   | .viol w => "viol " ++ w
   | .skip e => "skip " ++ showErr e
 
-def parseDe? : Sx → Option Bool
-  | .a "0" => some false
-  | .a "1" => some true
+/-- mode: bit 0 = the engine's variable-length BFS, bit 1 = the engine's ORDER BY tie-break -/
+def parseMode? : Sx → Option (Bool × Bool)
+  | .a "0" => some (false, false)
+  | .a "1" => some (true, false)
+  | .a "2" => some (false, true)
+  | .a "3" => some (true, true)
   | _ => none
+
+def parseDe? (x : Sx) : Option Bool := (parseMode? x).map (·.1)
 
 /-- 0 = true, 1 = false, 2 = null, 3 = error / not a boolean -/
 def predClass (g : Graph) (r : Row) (e : Expr) : Nat :=
@@ -312,9 +318,9 @@ def queryStats (g : Graph) (de : Bool) (q : Query) : String :=
 def handle (_ : Unit) (line : String) : Unit × String :=
   match sxParseAll line with
   | some [.a "check", de, g, q, t] =>
-    match parseDe? de, parseGraph? g, parseQuery? q, parseTable? t with
-    | some de, some g, some q, some t =>
-      ((), showVerdict (specQuery g de q t) ++ " ;; " ++ showModel (evalQuery g de q)
+    match parseMode? de, parseGraph? g, parseQuery? q, parseTable? t with
+    | some (de, tie), some g, some q, some t =>
+      ((), showVerdict (specQueryWith tie g de q t) ++ " ;; " ++ showModel (evalQuery g de q)
         ++ " ;; " ++ queryStats g de q)
     | _, _, _, _ => ((), "bad-op")
   | some [.a "run", de, g, q] =>
